@@ -148,11 +148,8 @@ func supervise(t *testing.T) {
 func firstFatal(s string) string {
 	for _, k := range []string{"fatal error:", "runtime: ", "panic:", "signal: "} {
 		if i := strings.Index(s, k); i >= 0 {
-			e := i + 300
-			if e > len(s) {
-				e = len(s)
-			}
-			return strings.ReplaceAll(s[i:e], "\n", " / ")
+			line, _, _ := strings.Cut(s[i:], "\n")
+			return line
 		}
 	}
 	return s
